@@ -31,7 +31,8 @@ import (
 
 func init() {
 	props["c15"] = &propCmd{gen: c15Gen, impl: c15Impl, oracle: c15Oracle,
-		extra: map[string]func([]string){"e2e": c15E2E, "show": c15Show, "coq": c15Coq, "term": c15Term}}
+		extra: map[string]func([]string){"e2e": c15E2E, "show": c15Show, "coq": c15Coq, "term": c15Term, "search": c15Search, "digest": c15DigestCmd}}
+	c15Edits = append(c15Edits, c15MoreEdits()...)
 }
 
 // ------------------------------------------------------------ program model
@@ -368,6 +369,10 @@ func c15Lit(r *hx.Rng, p *c15Prog, t c15Type, depth int) c15Ex {
 	case "int":
 		return c15Ex{K: "int", S: strconv.FormatInt(hx.Pick(r, []int64{0, 1, -1, 42, 1 << 53, 1<<53 + 1, math.MaxInt64, int64(r.Intn(100000))}), 10)}
 	case "float":
+		if r.Intn(3) == 0 {
+			// an integer literal bound to a float parameter
+			return c15Ex{K: "int", S: hx.Pick(r, []string{"0", "1", "2", "-3", "7", "100"})}
+		}
 		return c15Ex{K: "float", S: hx.Pick(r, []string{"0.5", "1.0", "-2.25", "1e10", "3.0e-7", "6.02e23", "1.0000000000000002", "0.1"})}
 	case "bool":
 		return c15Ex{K: "bool", S: hx.Pick(r, []string{"true", "false"})}
@@ -493,7 +498,8 @@ func c15GenProg(r *hx.Rng) *c15Prog {
 	p.Stages = append(p.Stages, c15Stage{Name: "CHECK", Src: "stages/check",
 		Ins: []c15Param{{Name: "level", T: c15Type{Base: "int"}}, {Name: "spare", T: c15Type{Base: "int"}}}})
 	p.Stages = append(p.Stages, c15Stage{Name: "SINK", Src: "stages/sink",
-		Ins: []c15Param{{Name: "a", T: c15Type{Base: "bool"}}, {Name: "b", T: c15Type{Base: "bool"}}, {Name: "spare", T: c15Type{Base: "int"}}}})
+		Ins: []c15Param{{Name: "a", T: c15Type{Base: "bool"}}, {Name: "b", T: c15Type{Base: "bool"}},
+			{Name: "scale", T: c15Type{Base: "float"}}, {Name: "weights", T: c15Type{Base: "float", Arr: 1}}, {Name: "spare", T: c15Type{Base: "int"}}}})
 
 	// INNER: calls stage 0 and stage 1
 	inner := c15Pipe{Name: "INNER"}
@@ -542,7 +548,8 @@ func c15GenProg(r *hx.Rng) *c15Prog {
 		Binds: []c15Bind{{"level", c15Ex{K: "self", S: "lvl"}}, {"spare", c15Ex{K: "null", S: "null"}}}}
 	outer.Calls = append(outer.Calls, chk)
 	outer.Calls = append(outer.Calls, c15Call{Dec: "SINK", Binds: []c15Bind{{"a", c15Ex{K: "self", S: "skip"}},
-		{"b", c15Ex{K: "self", S: "skip2"}}, {"spare", c15Ex{K: "null", S: "null"}}}})
+		{"b", c15Ex{K: "self", S: "skip2"}}, {"scale", c15Lit(r, p, c15Type{Base: "float"}, 0)},
+		{"weights", c15Lit(r, p, c15Type{Base: "float", Arr: 1}, 0)}, {"spare", c15Ex{K: "null", S: "null"}}}})
 	ic := c15Call{Dec: "INNER"}
 	if r.Intn(3) == 0 {
 		ic.Alias = "INNER_RUN"
@@ -684,6 +691,11 @@ type c15Edit struct {
 	name  string
 	f     func(p *c15Prog, r *hx.Rng) bool
 }
+
+// c15EditPre[name], if set, is applied to the base program first; its result
+// is the ORIGINAL of the pair (so that the edit can rely on declarations that
+// already exist in the original source).
+var c15EditPre = map[string]func(p *c15Prog, r *hx.Rng) bool{}
 
 // all calls of the program (top call last)
 func (p *c15Prog) calls() []*c15Call {
@@ -969,8 +981,8 @@ var c15Edits = []c15Edit{
 		return true
 	})},
 	{"s", "array_order", c15EditLeaf("arr", func(e *c15Ex, r *hx.Rng) bool {
-		if len(e.Items) < 2 || e.Items[0].render() == e.Items[1].render() {
-			return false
+		if len(e.Items) < 2 || c15NearlySame(e.Items[0], e.Items[1]) {
+			return false // swapping them would stay within the float tolerance
 		}
 		e.Items[0], e.Items[1] = e.Items[1], e.Items[0]
 		return true
@@ -1440,18 +1452,45 @@ func c15Gen(tier string, r *hx.Rng) {
 		}
 		da := astdump.Ast(astA).Transport()
 		for _, ed := range c15Edits {
-			q := base.clone()
-			if !ed.f(q, r) {
-				continue
+			orig, fo, do := base, fa, da
+			if pre := c15EditPre[ed.name]; pre != nil {
+				orig = base.clone()
+				if !pre(orig, r) {
+					continue
+				}
+				fo = orig.render()
+				astO, err := c15Compile(fo)
+				if err != nil {
+					fmt.Fprintf(os.Stderr, "c15 gen: original of edit %s does not compile: %.300v\n", ed.name, err)
+					skipped++
+					continue
+				}
+				do = astdump.Ast(astO).Transport()
 			}
-			fb := q.render()
-			astB, err := c15Compile(fb)
-			if err != nil {
-				fmt.Fprintf(os.Stderr, "c15 gen: edit %s does not compile: %.300v\n", ed.name, err)
+			// an edit lands on a random site; a site where it does not
+			// compile (e.g. a fractional literal for an int parameter) is
+			// retried elsewhere
+			var lastErr error
+			done := false
+			for try := 0; try < 4 && !done; try++ {
+				q := orig.clone()
+				if !ed.f(q, r) {
+					lastErr = nil
+					break
+				}
+				fb := q.render()
+				astB, err := c15Compile(fb)
+				if err != nil {
+					lastErr = err
+					continue
+				}
+				fmt.Fprintf(w, "p %s %s %s %s %s %s\n", ed.class, ed.name, c15Enc(fo), c15Enc(fb), do, astdump.Ast(astB).Transport())
+				done = true
+			}
+			if !done && lastErr != nil {
+				fmt.Fprintf(os.Stderr, "c15 gen: edit %s does not compile: %.300v\n", ed.name, lastErr)
 				skipped++
-				continue
 			}
-			fmt.Fprintf(w, "p %s %s %s %s %s %s\n", ed.class, ed.name, c15Enc(fa), c15Enc(fb), da, astdump.Ast(astB).Transport())
 		}
 	}
 	// literal pairs for Exp.equal
@@ -1510,6 +1549,13 @@ func c15GenLiterals(tier string, r *hx.Rng) {
 			emit(strconv.FormatInt(a, 10), strconv.FormatInt(b, 10))
 			emit(strconv.FormatInt(a, 10), c15FloatLit(float64(b)))
 			emit(c15FloatLit(float64(b)), strconv.FormatInt(a, 10))
+			// non-integral floats next to the integer
+			for _, fr := range []float64{0.5, -0.5, 0.25, 0.9} {
+				if g := float64(b) + fr; g != float64(b) {
+					emit(strconv.FormatInt(a, 10), c15FloatLit(g))
+					emit(c15FloatLit(g), strconv.FormatInt(a, 10))
+				}
+			}
 		}
 	}
 	// structured literals
